@@ -21,7 +21,7 @@ import os
 MODULES = ['suit', 'pair', 'vul', 'player', 'bid', 'card', 'contract', 'score', 'bidding_phase', 'playing_phase', 'hands',
            'data_handler/abstract_classes', 'data_handler/pbn_handler/__init__', 'data_handler/pbn_handler/writer', 'data_handler/json_handler/writer',
            'data_handler/json_handler/parser', 'network_bridge/bidding_system', 'network_bridge/socket_interface', 'network_bridge/server',
-           'network_bridge/client']
+           'network_bridge/client', '_threads']
 
 # modules of which only the listed methods are translated (the rest of the module is threads, sockets and queues)
 SELECT = {'network_bridge/server': {'Server': ['hand_to_str', 'convert_vul', 'remove_alert_word'],
@@ -105,7 +105,7 @@ K = {'value': 1, 'name': 2, '__str__': 3, '__int__': 4, '__lt__': 5, '__le__': 6
 EXCEPTIONS = {'ValueError', 'Exception', 'AssertionError', 'KeyError', 'IndexError', 'NotImplementedError', 'TypeError',
               'AttributeError', 'ZeroDivisionError'}
 BUILTINS = {'abs': 'abs', 'len': 'len', 'int': 'int', 'str': 'str', 'tuple': 'tuple', 'list': 'tuple', 'range': 'range',
-            'enumerate': 'enumerate', 'set': 'set'}
+            'enumerate': 'enumerate', 'set': 'set', 'all': 'all', 'any': 'any'}
 
 
 class TranslationError(Exception):
@@ -144,6 +144,18 @@ class Translator:
     def source(self, m):
         if m == '_prelude':
             return PRELUDE
+        if m == '_threads':
+            # the thread classes, re-written into sequential code over an explicit world object (desugar_threads.py)
+            if getattr(self, '_threads_src', None) is None:
+                import desugar_threads
+                try:
+                    self._threads_src = desugar_threads.desugar(self.repo)
+                except (desugar_threads.DesugarError, OSError, SyntaxError, AttributeError, IndexError, KeyError) as e:
+                    # the thread code left the desugared subset: the world prelude alone is translated, the thread classes
+                    # are missing from the program, and only the theorems about THEM stop building (C08–C11, C13, C19, C20)
+                    self.threads_error = f'{type(e).__name__}: {e}'
+                    self._threads_src = desugar_threads.WORLD
+            return self._threads_src
         return open(os.path.join(self.repo, 'bridge_env', m + '.py'), encoding='utf-8').read()
 
     def collect(self):
@@ -593,6 +605,10 @@ class Translator:
                 # the text of the file object = its chunks joined (see PRELUDE)
                 return ('(.builtin .jsonLoads [(.builtin .join [(.const (.str [])), (.attr ' + self.expr(node.args[0]) +
                         f' {self.ident("buf")})])])')
+            # copy.deepcopy(x): values are immutable in MiniPy, a deep copy is the value itself
+            if isinstance(f.value, ast.Name) and f.value.id == 'copy' and f.attr == 'deepcopy' and len(node.args) == 1 \
+                    and not node.keywords and 'copy' not in self.locals:
+                return self.expr(node.args[0])
             # np.ones(n)
             if isinstance(f.value, ast.Name) and f.value.id == 'np' and f.attr == 'ones' and len(node.args) >= 1 \
                     and all(k.arg == 'dtype' for k in node.keywords) and len(node.args) <= 2:
@@ -642,6 +658,14 @@ class Translator:
             if f.attr in ('append', 'add', 'remove', 'items', 'keys', 'values', 'lower', 'upper', 'replace', 'split', 'join',
                           'format', 'strip', 'copy', 'get', 'pop', 'extend', 'sort'):
                 raise Skip(f'container / string method .{f.attr}() in an expression')
+            # a local whose class is known (`env = BiddingPhase(..)`): the method of THAT class
+            if isinstance(f.value, ast.Name) and self.local_types.get(f.value.id):
+                r = self.find_method(self.local_types[f.value.id], f.attr)
+                if r is not None and r[1][1] == 'instance':
+                    if (r[0].name, f.attr) in self.mutating:
+                        raise Skip(f'mutating method {f.attr} used in an expression')
+                    args = self.args_for(r[1][0].args, None, node, cname, skip_first=1, what=f.attr)
+                    return f'(.meth {self.expr(f.value)} {self.ident(f.attr)} {self.elist(args)})'
             # dynamic dispatch on the receiver's class: only instance methods, positional arguments
             if node.keywords:
                 raise Skip(f'keywords in a dynamically dispatched call .{f.attr}()')
@@ -780,6 +804,20 @@ class Translator:
                 lo = f'(some {self.expr(t.slice.lower)})' if t.slice.lower is not None else 'none'
                 hi = f'(some {self.expr(t.slice.upper)})' if t.slice.upper is not None else 'none'
                 return f'(.sliceFill {self.target(t.value)} {lo} {hi} {self.expr(st.value)})'
+            if isinstance(t, ast.Name) and isinstance(st.value, ast.Call) and isinstance(st.value.func, ast.Name) \
+                    and st.value.func.id in self.classes and st.value.func.id not in self.locals:
+                # `x = C(...)`: the class of the local is known from here on (unless it is assigned something else)
+                if self.local_types.get(t.id, st.value.func.id) == st.value.func.id:
+                    self.local_types[t.id] = st.value.func.id
+                else:
+                    self.local_types[t.id] = None
+            elif isinstance(t, ast.Name):
+                self.local_types[t.id] = None
+            mc = self.mutating_call(st.value)
+            if mc is not None:
+                recv, mname, args = mc
+                self.bind_target_names(t)
+                return f'(.callMutRet {self.target(t)} {recv} {self.ident(mname)} {self.elist(args)})'
             e = self.expr(st.value)
             self.bind_target_names(t)
             return f'(.assign {self.target(t)} {e})'
@@ -828,6 +866,33 @@ class Translator:
         if isinstance(st, ast.Pass):
             return '.pass'
         raise Skip(f'statement {type(st).__name__}')
+
+    def mutating_call(self, node):
+        """`recv.m(args)` where recv is a path and m a MUTATING instance method -> (receiver target, m, argument expressions);
+        used for `x = recv.m(args)`: the receiver is written back and the result assigned (Stmt.callMutRet)"""
+        if not (isinstance(node, ast.Call) and isinstance(node.func, ast.Attribute)):
+            return None
+        f = node.func
+        if not self.is_path(f.value):
+            return None
+        cname = self.cur_class
+        if isinstance(f.value, ast.Name) and f.value.id == 'self' and cname is not None:
+            r = self.find_method(cname, f.attr)
+            if r is not None and r[1][1] == 'instance' and (r[0].name, f.attr) in self.mutating:
+                args = self.args_for(r[1][0].args, None, node, cname, skip_first=1, what=f.attr)
+                return self.target(f.value), f.attr, args
+            return None
+        cands = [ci for ci in self.classes.values() if f.attr in ci.methods]
+        if cands and all(ci.methods[f.attr][1] == 'instance' for ci in cands) and \
+                all((ci.name, f.attr) in self.mutating for ci in cands):
+            if len(cands) == 1:
+                args = self.args_for(cands[0].methods[f.attr][0].args, None, node, cname, skip_first=1, what=f.attr)
+            elif node.keywords:
+                raise Skip(f'keywords in a dynamically dispatched mutating call .{f.attr}()')
+            else:
+                args = [self.expr(a) for a in node.args]
+            return self.target(f.value), f.attr, args
+        return None
 
     def call_stmt(self, call):
         cname = self.cur_class
@@ -881,6 +946,15 @@ class Translator:
                 n = n.value
             return isinstance(n, ast.Name) and n.id == 'self'
         for n in ast.walk(fd):
+            if isinstance(n, ast.Assign) and isinstance(n.value, ast.Call) and isinstance(n.value.func, ast.Attribute) \
+                    and rooted_self(n.value.func.value):
+                f = n.value.func
+                if isinstance(f.value, ast.Name):
+                    r = self.find_method(ci.name, f.attr)
+                    if r is not None and (r[0].name, f.attr) in mut:
+                        return True
+                elif any((c.name, f.attr) in mut for c in self.classes.values()):
+                    return True
             if isinstance(n, (ast.Assign, ast.AugAssign, ast.AnnAssign)):
                 ts = n.targets if isinstance(n, ast.Assign) else [n.target]
                 for t in ts:
@@ -911,6 +985,7 @@ class Translator:
             raise Skip('parameter kinds')
         params = [x.arg for x in a.args]
         self.locals = set(params)
+        self.local_types = {}
         self.locals_assigned = set()
         for n in ast.walk(fd):
             if isinstance(n, ast.Name) and isinstance(n.ctx, ast.Store):
@@ -943,7 +1018,8 @@ class Translator:
                         'data_handler/pbn_handler/writer',
                         'data_handler/json_handler/writer', 'data_handler/json_handler/parser'], 5000),
               ('Net', ['network_bridge/bidding_system', 'network_bridge/socket_interface', 'network_bridge/server',
-                       'network_bridge/client'], 6000)]
+                       'network_bridge/client'], 6000),
+              ('Threads', ['_threads'], 7000)]
 
     def names_of(self, module):
         names = set()
@@ -1083,6 +1159,8 @@ class Translator:
             if g == 'Base':
                 out.append('/-- the value classes and the scoring functions -/')
                 out.append('def programBase : Program := { classes := classesBase, funcs := funcsBase, globals := globalsBase }\n')
+            if g == 'Threads' and getattr(self, 'threads_error', None):
+                skipped[g].append(('(all thread classes)', self.threads_error))
             out.append(f'def skipped{g} : List (String × String) := [' +
                        ', '.join('("%s", "%s")' % (a, b.replace('\\', '\\\\').replace('"', '\\"')) for a, b in skipped[g]) + ']\n')
             out.append('end Bridge.Generated.PyCore\n')
@@ -1115,7 +1193,7 @@ open Bridge.Py
 
 
 FILES = ['PyCoreBase.lean', 'PyCoreAuction.lean', 'PyCorePlay.lean', 'PyCoreHands.lean', 'PyCoreJson.lean', 'PyCoreNet.lean',
-         'PyCore.lean']
+         'PyCoreThreads.lean', 'PyCore.lean']
 
 
 def generate(repo):
